@@ -84,6 +84,92 @@ func blockingCase(t *testing.T, r *Recorder, n uint8) {
 	r.Case(sc.Name, true, "blocking")
 }
 
+// pingWindowCase: keepalive pings are DATA packets and take window slots. With
+// ACKs withheld and n-1 messages outstanding, the ping that becomes due fills
+// the window: later Sends must block and no more than n DATA packets may be
+// outstanding, however many ping periods pass.
+func pingWindowCase(t *testing.T, r *Recorder, n uint8) {
+	sc := &GbnScenario{Name: fmt.Sprintf("ping-fills-window-n%d", n), N: n, Latency: time.Millisecond,
+		Static: 600 * time.Second, PingNs: int64(5 * time.Second), PongNs: int64(500 * time.Second)}
+	var c1, c2, c3 int64
+	res := RunGbnBody(t, sc, func(sim *Sim, conns [2]*gbn.GoBackNConn, res *GbnResult) {
+		sim.pipes[1].Hold(true)
+		var count int64
+		first, total := int(n)-1, int(n)+2
+		gate := make(chan struct{})
+		res.tw.Add(2)
+		go func() {
+			defer res.tw.Done()
+			for i := 0; i < total; i++ {
+				if i == first {
+					<-gate
+				}
+				p := payloadFor(0, i, 3)
+				sim.log(Event{EP: 0, Kind: "send", Pkt: p, Msg: i})
+				if err := conns[0].Send(p); err != nil {
+					return
+				}
+				atomic.AddInt64(&count, 1)
+			}
+		}()
+		go func() {
+			defer res.tw.Done()
+			for {
+				b, err := conns[1].Recv()
+				if err != nil {
+					return
+				}
+				res.rmu.Lock()
+				res.Recvd[1] = append(res.Recvd[1], b)
+				res.rmu.Unlock()
+			}
+		}()
+		time.Sleep(300 * time.Millisecond)
+		synctest.Wait()
+		c1 = atomic.LoadInt64(&count)
+		time.Sleep(6 * time.Second) // the first ping becomes due and takes the last slot
+		close(gate)
+		time.Sleep(17 * time.Second) // three more ping periods
+		synctest.Wait()
+		c2 = atomic.LoadInt64(&count)
+		sim.log(Event{EP: 0, Kind: "mark"})
+		sim.pipes[1].Hold(false)
+		time.Sleep(30 * time.Second)
+		synctest.Wait()
+		c3 = atomic.LoadInt64(&count)
+	})
+	if res.Panic != "" || res.HsErr[0] != "" || res.HsErr[1] != "" {
+		r.Violate("C09/run-failed", res.Panic+res.HsErr[0]+res.HsErr[1], sc)
+		return
+	}
+	outstanding := map[uint8]bool{}
+	emitted := 0
+	for _, e := range res.Events {
+		if e.Kind == "mark" {
+			break
+		}
+		if e.Kind == "emit" && e.EP == 0 {
+			if m, err := gbn.Deserialize(e.Pkt); err == nil {
+				if d, ok := m.(*gbn.PacketData); ok {
+					emitted++
+					outstanding[d.Seq] = true
+				}
+			}
+		}
+	}
+	switch {
+	case c1 != int64(n)-1:
+		r.Violate("C09/send-blocks-early", fmt.Sprintf("n=%d: %d of %d Sends returned on an open window", n, c1, int(n)-1), sc)
+	case c2 > c1 || emitted > int(n):
+		r.Violate("C09/window-exceeded", fmt.Sprintf("n=%d, keepalive ping due with %d packets unacknowledged: %d more Sends returned and %d DATA packets (pings included) were emitted with no ACK delivered",
+			n, c1, c2-c1, emitted), sc)
+	case c3 != int64(n)+2:
+		r.Violate("C09/send-stuck", fmt.Sprintf("n=%d: %d of %d Sends returned after ACKs flowed again", n, c3, int(n)+2), sc)
+	}
+	r.EmitOKBlock(uniLines(sc, res))
+	r.Case(sc.Name, true, "ping-fills-window")
+}
+
 func TestC09(t *testing.T) {
 	r := NewRecorder(t, "C09")
 	defer r.Close(t)
@@ -103,6 +189,9 @@ func TestC09(t *testing.T) {
 			continue
 		}
 		blockingCase(t, r, uint8(n))
+	}
+	for _, n := range []int{1, 2, 3, 5, 20, 127, 254} {
+		pingWindowCase(t, r, uint8(n))
 	}
 	// window discipline under faults: the C01 scenario family, replayed
 	// through the model (a new packet must find room in the model's window)
